@@ -126,7 +126,7 @@ class FunctionTranslator:
         return "tmp%d" % self.counter
 
     def _fresh_list_expr(self, node):
-        if isinstance(node, (ast.ListComp, ast.List)):
+        if isinstance(node, (ast.ListComp, ast.List, ast.Dict)):
             return True
         if isinstance(node, ast.Constant):
             return True                      # immutable
@@ -137,8 +137,8 @@ class FunctionTranslator:
                 return True
         if isinstance(node, ast.UnaryOp) and isinstance(node.op, ast.USub):
             return self._fresh_list_expr(node.operand)
-        if isinstance(node, ast.Call) and isinstance(node.func, ast.Attribute) and node.func.attr in ("join", "zfill", "index"):
-            return True                      # str / int results are immutable
+        if isinstance(node, ast.Call) and isinstance(node.func, ast.Attribute) and node.func.attr in ("join", "zfill", "index", "tolist", "astype"):
+            return True                      # str / int results are immutable; tolist / astype build new objects
         if isinstance(node, ast.BinOp):
             # `+` and `*` build a new object; with an int/str operand the result is immutable anyway
             return self._fresh_list_expr(node.left) or self._fresh_list_expr(node.right)
@@ -170,6 +170,7 @@ class FunctionTranslator:
                 for t in node.targets:
                     if isinstance(t, ast.Subscript) and isinstance(t.value, ast.Name):
                         mutated.add(t.value.id)
+        alias_targets = set()
         for node in ast.walk(self.fn):
             if isinstance(node, ast.Assign):
                 pairs = []
@@ -189,11 +190,16 @@ class FunctionTranslator:
                     if isinstance(t, ast.Name) and t.id in mutated and not self._fresh_list_expr(v):
                         raise Unsupported("%s: mutated local %s is assigned from a possibly shared value" % (self.name, t.id))
                     if isinstance(v, ast.Name) and v.id in mutated:
-                        raise Unsupported("%s: mutated local %s is aliased" % (self.name, v.id))
+                        if not (isinstance(t, ast.Name) and self._alias_at_end_of_iteration(node, t.id, v.id)):
+                            raise Unsupported("%s: mutated local %s is aliased" % (self.name, v.id))
+                        alias_targets.add(t.id)
             if isinstance(node, (ast.For, ast.comprehension)):
                 for sub in ast.walk(node.target):
                     if isinstance(sub, ast.Name) and sub.id in mutated:
                         raise Unsupported("%s: mutated local %s is a loop target" % (self.name, sub.id))
+        for nm in alias_targets:
+            if nm in mutated:
+                raise Unsupported("%s: %s aliases a mutated local and is mutated itself" % (self.name, nm))
         for nm in getattr(self, "owning", set()):
             for node in ast.walk(self.fn):
                 if isinstance(node, ast.Assign):
@@ -211,6 +217,42 @@ class FunctionTranslator:
                 if not first:
                     raise Unsupported("%s: parameter %s is mutated in place" % (self.name, p))
         self.mutated = mutated
+
+    def _alias_at_end_of_iteration(self, assign, y, x):
+        """`y = x` where x is a mutated local: harmless for value semantics when, after it, x is always rebound to a
+        fresh value before it is mentioned again.  Recognised shape: every mention of x lies in the body of a loop
+        whose first statement mentioning x assigns it a fresh value ("rebinding loop"); `y = x` is a top-level statement
+        of such a body and nothing after it in that body mentions x; y is never mutated (checked by the caller)."""
+        def mentions(st, name):
+            return any(isinstance(n, ast.Name) and n.id == name for n in ast.walk(st))
+
+        def rebinding(body):
+            first = next((st for st in body if mentions(st, x)), None)
+            if not isinstance(first, ast.Assign) or mentions(first.value, x):
+                return False
+            for t in first.targets:
+                if isinstance(t, ast.Name) and t.id == x and self._fresh_list_expr(first.value):
+                    return True
+                if isinstance(t, ast.Tuple) and isinstance(first.value, ast.Tuple) and len(t.elts) == len(first.value.elts):
+                    for el, val in zip(t.elts, first.value.elts):
+                        if isinstance(el, ast.Name) and el.id == x and self._fresh_list_expr(val):
+                            return True
+            return False
+        loops = [l for l in ast.walk(self.fn) if isinstance(l, (ast.For, ast.While)) and rebinding(l.body)]
+        home = next((l for l in loops if assign in l.body), None)
+        if home is None:
+            return False
+        i = home.body.index(assign)
+        if any(mentions(st, x) for st in home.body[i + 1:]):
+            return False
+        covered = set()
+        for l in loops:
+            for st in l.body:
+                covered |= {id(n) for n in ast.walk(st)}
+        for n in ast.walk(self.fn):
+            if isinstance(n, ast.Name) and n.id == x and id(n) not in covered:
+                return False
+        return True
 
     def _first_use_is_rebinding(self, p):
         """True if no mutation of parameter p can happen before p has been re-assigned: we require the
@@ -293,6 +335,10 @@ class FunctionTranslator:
             return self.apply_list(".tup", node.elts, scope, assigned)
         if isinstance(node, ast.List):
             return self.apply_list(".list", node.elts, scope, assigned)
+        if isinstance(node, ast.Dict):
+            if node.keys:
+                raise Unsupported("%s: non-empty dict literal" % self.name)
+            return True, "(.dict [] [])"
         if isinstance(node, ast.ListComp):
             if len(node.generators) != 1 or node.generators[0].ifs or node.generators[0].is_async:
                 raise Unsupported("%s: comprehension shape" % self.name)
@@ -320,6 +366,8 @@ class FunctionTranslator:
                 if len(sl.elts) != 2 or any(isinstance(x, ast.Slice) for x in sl.elts):
                     raise Unsupported("%s: multi-dimensional subscript shape" % self.name)
                 return self.apply("npIndex2", [node.value, sl.elts[0], sl.elts[1]], scope, assigned)
+            if isinstance(sl, ast.Compare) and self.m.numpy:
+                return self.apply("npMaskIndex", [node.value, sl], scope, assigned)      # a[a >= 0]
             return self.apply("pyIndex", [node.value, sl], scope, assigned)
         if isinstance(node, ast.Call):
             return self.call(node, scope, assigned)
@@ -431,9 +479,15 @@ class FunctionTranslator:
         if isinstance(f, ast.Attribute):
             if node.keywords:
                 raise Unsupported("%s: keyword arguments to a method" % self.name)
-            meth = {"zfill": ("pyZfill", 1), "join": ("pyJoin", 1), "index": ("pyIndexOf", 1)}
+            meth = {"zfill": ("pyZfill", 1), "join": ("pyJoin", 1), "index": ("pyIndexOf", 1),
+                    "items": ("pyDictItems", 0), "keys": ("pyDictKeys", 0), "values": ("pyDictValues", 0),
+                    "tolist": ("npToList", 0)}
             if f.attr in meth and len(node.args) == meth[f.attr][1]:
                 return self.apply(meth[f.attr][0], [f.value] + node.args, scope, assigned)
+            if f.attr == "copy" and not node.args:
+                return self.expr(f.value, scope, assigned)          # values are immutable in the target: a copy is the value
+            if f.attr == "astype" and len(node.args) == 1 and isinstance(node.args[0], ast.Name) and node.args[0].id in ("bool", "int"):
+                return self.apply("npAstypeBool" if node.args[0].id == "bool" else "npAstypeInt", [f.value], scope, assigned)
             raise Unsupported("%s: method %s" % (self.name, f.attr))
         raise Unsupported("%s: call shape" % self.name)
 
@@ -455,6 +509,9 @@ class FunctionTranslator:
         elif real == "sum":
             if len(a) == 1 and not kws:
                 return self.apply("npSum", a, scope, assigned)
+            ax = kws.get("axis")
+            if len(a) == 1 and len(kws) == 1 and isinstance(ax, ast.Constant) and ax.value == 1:
+                return self.apply("npSumAxis1", a, scope, assigned)
         elif real == "array":
             dtype_int_only()
             if len(a) == 1 and not kws:
